@@ -10,6 +10,9 @@
 //!   E         start destroy_database on a thread; it parks right before it removes the LOCK file
 //!   F         let it go on; it parks right before it removes the database directory
 //!   H         let it finish and report its result
+//!   I<h>      start DB::open for handle <h> on a thread; it parks inside FileSystem::lock_file between
+//!             opening the LOCK file and locking it (hook point lock:after_open)
+//!   L<h>      let that open go on and report its result
 //!   Z<h>      close handle <h> while its background thread is parked inside the creation of a
 //!             table file (a flush is provoked first); every open attempted before the close has
 //!             returned must be refused
@@ -155,6 +158,32 @@ pub fn run_lock(line: &str) -> String {
     let fs: Arc<dyn FileSystem> = Arc::clone(&gated) as Arc<dyn FileSystem>;
     let mut destroyer: Option<std::thread::JoinHandle<bool>> = None;
     let mut dphase: u8 = 0; // gate the destroyer is parked at (0 = no destroyer running)
+    // openers parked between opening and locking the LOCK file: thread name -> (parked, released)
+    let openers: Arc<(Mutex<HashMap<String, (bool, bool)>>, Condvar)> = Arc::new((Mutex::new(HashMap::new()), Condvar::new()));
+    {
+        let op2 = Arc::clone(&openers);
+        raindb::verif_hooks::sched::install(Arc::new(move |point: &'static str| {
+            if point != "lock:after_open" {
+                return;
+            }
+            let name = std::thread::current().name().unwrap_or("?").to_string();
+            if !name.starts_with("case-lock-opener-") {
+                return;
+            }
+            let (m, cv) = &*op2;
+            let mut st = m.lock().unwrap();
+            if st.get(&name).map(|x| x.0).unwrap_or(true) {
+                return; // parks once only
+            }
+            st.insert(name.clone(), (true, false));
+            cv.notify_all();
+            let deadline = Instant::now() + Duration::from_secs(60);
+            while !st.get(&name).map(|x| x.1).unwrap_or(true) && Instant::now() < deadline {
+                st = cv.wait_timeout(st, Duration::from_millis(100)).unwrap().0;
+            }
+        }));
+    }
+    let mut pending: HashMap<String, std::thread::JoinHandle<Option<DB>>> = HashMap::new();
     let mut handles: HashMap<String, DB> = HashMap::new();
     let mut out: Vec<String> = vec![];
     for step in &toks[1..] {
@@ -314,6 +343,56 @@ pub fn run_lock(line: &str) -> String {
                     });
                 }
             },
+            b'I' => {
+                let name = format!("case-lock-opener-{}", body);
+                if pending.contains_key(body) || handles.contains_key(body) {
+                    out.push("none".to_string());
+                } else {
+                    openers.0.lock().unwrap().insert(name.clone(), (false, false));
+                    let fs2 = Arc::clone(&fs);
+                    let th = std::thread::Builder::new()
+                        .name(name.clone())
+                        .spawn(move || DB::open(options(&fs2)).ok())
+                        .unwrap();
+                    let deadline = Instant::now() + Duration::from_secs(20);
+                    loop {
+                        if openers.0.lock().unwrap().get(&name).map(|x| x.0).unwrap_or(false) {
+                            pending.insert(body.to_string(), th);
+                            out.push("parked".to_string());
+                            break;
+                        }
+                        if th.is_finished() || Instant::now() > deadline {
+                            match th.join() {
+                                Ok(Some(db)) => {
+                                    handles.insert(body.to_string(), db);
+                                    out.push("ok".to_string());
+                                }
+                                _ => out.push("err".to_string()),
+                            }
+                            break;
+                        }
+                        std::thread::sleep(Duration::from_micros(200));
+                    }
+                }
+            }
+            b'L' => match pending.remove(body) {
+                None => out.push("none".to_string()),
+                Some(th) => {
+                    let name = format!("case-lock-opener-{}", body);
+                    {
+                        let (m, cv) = &*openers;
+                        m.lock().unwrap().insert(name, (true, true));
+                        cv.notify_all();
+                    }
+                    match th.join() {
+                        Ok(Some(db)) => {
+                            handles.insert(body.to_string(), db);
+                            out.push("ok".to_string());
+                        }
+                        _ => out.push("err".to_string()),
+                    }
+                }
+            },
             b'E' => {
                 if destroyer.is_some() {
                     out.push("none".to_string());
@@ -365,6 +444,17 @@ pub fn run_lock(line: &str) -> String {
         gated.release(2);
         let _ = th.join();
     }
+    {
+        let (m, cv) = &*openers;
+        for v in m.lock().unwrap().values_mut() {
+            *v = (true, true);
+        }
+        cv.notify_all();
+    }
+    for (_, th) in pending.drain() {
+        let _ = th.join();
+    }
+    raindb::verif_hooks::sched::uninstall();
     handles.clear();
     format!("{} {}", id, out.join(" "))
 }
